@@ -321,8 +321,8 @@ func runRLLB(x *X) {
 	net := newStubNet(x)
 	var bcs []config.BackendConfig
 	for i := 0; i < 2; i++ {
-		net.add(fmt.Sprintf("b%d", i), fmt.Sprintf("10.6.0.%d:80", i+1), "")
-		bcs = append(bcs, config.BackendConfig{Name: fmt.Sprintf("b%d", i), Address: fmt.Sprintf("http://10.6.0.%d:80", i+1), Weight: 1})
+		net.add(fmt.Sprintf("b%d", i), x.BackendHost(6, i+1), "")
+		bcs = append(bcs, config.BackendConfig{Name: fmt.Sprintf("b%d", i), Address: "http://" + x.BackendHost(6, i+1), Weight: 1})
 	}
 	onErr := func(e *simrt.SchedError) { x.Violate("C12", "C12/"+e.Kind+"{rllb}", "%s", e.Error()) }
 	var h *lbHarness
